@@ -3,7 +3,7 @@
    prop_c02 / prop_c03 judge the implementation's result by the property itself (well-formedness,
    resp. the per-operation contract stated on rows/corners) without running the model's step. *)
 From Coq Require Import List NArith ZArith Bool Arith.
-From PF Require Export Mesh.Pure.
+From PF Require Export Mesh.Pure Mesh.GenIdx.
 Import ListNotations.
 
 (* single-attribute transforms whose values are float arithmetic (checked by the harness within a
@@ -21,10 +21,18 @@ Inductive law :=
 | LEq                              (* the two meshes are equal: flip-twice, unweld-twice, remove-unreferenced-twice *)
 | LWeldUnweld (a : N) (dv : Z).    (* weld m and weld (unweld m): same key-rounded corner positions *)
 
+(* generators with an index model (Mesh/GenIdx.v) *)
+Inductive gdesc := GFan (n : nat) | GTube (sides points : nat).
+Definition gen_idx (g : gdesc) (fl : list bool) : list nat :=
+  match g with GFan n => fan_idx n | GTube s p => tube_idx (flip_of fl s) s p end.
+Definition gen_nverts (g : gdesc) : nat :=
+  match g with GFan n => fan_nverts n | GTube s p => tube_nverts s p end.
+
 Inductive case :=
 | COp (o : op) (ins : list mesh) (out : res)
 | CFrame (f : fop) (m : mesh) (out : res) (klen : option nat)   (* out: the result with the target attribute removed; klen: its length *)
 | CGen (out : res)                                              (* generator output, attribute values blanked *)
+| CGenI (g : gdesc) (fl : list bool) (out : res)                (* same, for a generator with an index model; fl: winding flips *)
 | CLaw (l : law) (ms : list mesh).
 
 (* predicates used by the attribute filters of the harness *)
@@ -86,6 +94,12 @@ Definition corr_ok (c : case) : bool :=
   | COp o ins out => inputs_ok o ins && res_eqb (step o ins) out
   | CFrame f m out klen => wfb m && frame_ok f m out klen
   | CGen _ => true
+  | CGenI g fl out =>
+      match out with
+      | Ok [r] => topo_eqb (topology r) Triangle && list_eqb Nat.eqb (indices r) (gen_idx g fl)
+                  && (nverts r =? gen_nverts g)
+      | _ => false
+      end
   | CLaw _ _ => true
   end.
 
@@ -98,7 +112,8 @@ Definition prop_c02 (c : case) : bool :=
   | COp o ins out => negb (inputs_ok o ins) || res_wfb out
   | CFrame f m out klen =>
       negb (wfb m) || match out with Ok ms => forallb (wfb_with klen) ms | Declared => true | Crash => false end
-  | CGen out => match out with Ok ms => forallb wfb ms | _ => true end   (* a rejected parameterisation is outside the quantifier *)
+  | CGen out | CGenI _ _ out =>
+      match out with Ok ms => forallb wfb ms | _ => true end   (* a rejected parameterisation is outside the quantifier *)
   | CLaw _ ms => forallb wfb ms
   end.
 
@@ -330,6 +345,6 @@ Definition prop_c03 (c : case) : bool :=
   match c with
   | COp o ins out => negb (inputs_ok o ins) || contract o ins out
   | CFrame f m out klen => negb (wfb m) || frame_ok f m out klen
-  | CGen _ => true
+  | CGen _ | CGenI _ _ _ => true
   | CLaw l ms => law_ok l ms
   end.
